@@ -23,7 +23,9 @@ func fromList(ops []Op) source {
 	}
 }
 
-func seg(f uint64, n int, t uint64, y, l int, g uint64) Seg { return Seg{F: f, N: n, T: t, Y: y, L: l, G: g} }
+func seg(f uint64, n int, t uint64, y, l int, g uint64) Seg {
+	return Seg{F: f, N: n, T: t, Y: y, L: l, G: g}
+}
 
 // witnessCases: the confirmed C17-zerofill-prefix witness and its close neighbours.
 func witnessCases() [][]Op {
@@ -85,6 +87,11 @@ func crashCases() [][]Op {
 	for _, k := range []uint64{0, 1, 2, 3, 4, 5, 6, 7, 8, 9, 10} {
 		cs = append(cs, []Op{save("save", nil, nil, seg(1, 6, 1, 0, 4718592, 11)),
 			{K: "fsave", I: k, HS: &[3]uint64{1, 1, 7}, Segs: []Seg{seg(7, 2, 1, 0, 4718592, 50)}}, {K: "reopen"}, {K: "sum"}})
+	}
+	// ... and of a Save that conflicts into a rotated file (removal of the later file, zero-fill up to the data area)
+	for k := uint64(0); k < 6; k++ {
+		cs = append(cs, []Op{save("save", nil, nil, seg(1, 7, 1, 0, 4718592, 11)),
+			{K: "fsave", I: k, HS: &[3]uint64{2, 1, 5}, Segs: []Seg{seg(4, 2, 2, 0, 300, 50)}}, {K: "reopen"}, {K: "sum"}})
 	}
 	return cs
 }
